@@ -660,8 +660,9 @@ def route(rng, d, depth, defs=None):
     return ["powc", leaf(rng, list(d2.items()), defs), 1, big]
 
 
-def gen_tree(rng, depth, syms, defs=None):
-    """random in-domain tree (no dimensionless intermediate, +/- operands dimension-equal)"""
+def gen_tree(rng, depth, syms, defs=None, constdiv=False):
+    """random in-domain tree (no dimensionless intermediate, +/- operands dimension-equal);
+    constdiv: plain numbers also as dividend and divisor (2 / x, x / 2)"""
     defs = defs or {}
     if depth <= 0 or rng.random() < 0.15:
         u = rand_units(rng, syms, emax=3 if defs else 4)
@@ -669,24 +670,114 @@ def gen_tree(rng, depth, syms, defs=None):
         return ["leaf", units_json(u), unit_string(u, rng.choice(["*", DOT, "*"]))]
     c = rng.choice(["mul", "mul", "div", "div", "add", "sub", "add", "pow", "sqrt", "neg", "addc"])
     if c in ("mul", "div"):
-        return ["node", c, [gen_tree(rng, depth - 1, syms, defs), gen_tree(rng, depth - 1, syms, defs)]]
+        return ["node", c, [gen_tree(rng, depth - 1, syms, defs, constdiv), gen_tree(rng, depth - 1, syms, defs, constdiv)]]
     if c in ("neg", "sqrt"):
-        return ["node", c, [gen_tree(rng, depth - 1, syms, defs)]]
+        return ["node", c, [gen_tree(rng, depth - 1, syms, defs, constdiv)]]
     if c == "pow":
         k = rng.choice(POWERS)
-        return ["powc", gen_tree(rng, depth - 1, syms, defs), k.numerator, k.denominator]
+        return ["powc", gen_tree(rng, depth - 1, syms, defs, constdiv), k.numerator, k.denominator]
     if c == "addc":
-        args = [gen_tree(rng, depth - 1, syms, defs), ["const"]]
+        args = [gen_tree(rng, depth - 1, syms, defs, constdiv), ["const"]]
         if rng.random() < 0.5:
             args.reverse()
-        return ["node", rng.choice(["add", "sub", "mul"]), args]
-    a = gen_tree(rng, depth - 1, syms, defs)
+        return ["node", rng.choice(["add", "sub", "mul"] + (["div", "div"] if constdiv else [])), args]
+    a = gen_tree(rng, depth - 1, syms, defs, constdiv)
     da = dim_tree(a, defs)
     if da[0] != "ok" or not ok_exps(da[1]):
         return a
     b = route(rng, da[1], depth - 1, defs)
     args = [a, b] if rng.random() < 0.5 else [b, a]
     return ["node", c, args]
+
+
+# near misses: pairs of dimensions that a sloppy comparison takes for equal.  Every kind is a
+# GENUINE mismatch (the two exponent functions differ); what varies is how little they differ
+NEAR_KINDS = ["half", "third", "sixth", "one", "swap", "sign", "extra-half", "extra-third",
+              "extra-one", "drop", "scale", "negate-all", "case", "rename"]
+
+
+def near_miss(rng, d, kind):
+    """a dimension that differs from d (dict sym -> Fraction, non-empty) in the way `kind` says,
+    or None when that kind does not apply to d:
+    half/third/sixth/one  one exponent moved by +-1/2, +-1/3, +-1/6, +-1 (same symbols)
+    swap                  the exponents of two symbols exchanged (same symbols, same values)
+    sign                  one exponent negated (m/s against m*s)
+    extra-*               one more symbol with exponent +-1/2, +-1/3, +-1
+    drop                  one symbol missing
+    scale                 every exponent doubled or halved (same symbols, proportional)
+    negate-all            the reciprocal unit
+    case                  one symbol in the other letter case (m against M)
+    rename                one symbol replaced by another, same exponent"""
+    d2 = dict(d)
+    ks = sorted(d)
+    k = rng.choice(ks)
+    step = {"half": F(1, 2), "third": F(1, 3), "sixth": F(1, 6), "one": F(1)}
+    if kind in step:
+        d2[k] = d[k] + rng.choice([1, -1]) * step[kind]
+    elif kind == "swap":
+        pairs = [(a, b) for a in ks for b in ks if a < b and d[a] != d[b]]
+        if not pairs:
+            return None
+        a, b = rng.choice(pairs)
+        d2[a], d2[b] = d[b], d[a]
+    elif kind == "sign":
+        d2[k] = -d[k]
+    elif kind.startswith("extra-"):
+        new = [s for s in SYMS if s not in d]
+        if not new:
+            return None
+        d2[rng.choice(new)] = rng.choice([1, -1]) * {"half": F(1, 2), "third": F(1, 3),
+                                                     "one": F(1)}[kind[6:]]
+    elif kind == "drop":
+        if len(ks) < 2:
+            return None
+        del d2[k]
+    elif kind == "scale":
+        c = rng.choice([F(2), F(1, 2)])
+        d2 = {s: e * c for s, e in d.items()}
+    elif kind == "negate-all":
+        d2 = {s: -e for s, e in d.items()}
+    elif kind == "case":
+        alt = [s for s in ks if s.swapcase() != s and s.swapcase() not in d]
+        if not alt:
+            return None
+        k = rng.choice(alt)
+        d2 = {(s.swapcase() if s == k else s): e for s, e in d.items()}
+    elif kind == "rename":
+        new = [s for s in SYMS if s not in d]
+        if not new:
+            return None
+        n = rng.choice(new)
+        d2 = {(n if s == k else s): e for s, e in d.items()}
+    else:
+        raise ValueError(kind)
+    d2 = {s: e for s, e in d2.items() if e != 0}
+    if not d2 or d2 == {s: e for s, e in d.items() if e != 0} or not ok_exps(d2):
+        return None
+    return d2
+
+
+def near_mismatch_tree(rng, kind, depth, syms):
+    """a +/- of two operands whose dimensions are a near miss of kind `kind`; the base dimension
+    has integer exponents or halves (a square root of odd powers), both operands are reached by
+    random routes, in either order -> (tree, tag) or None"""
+    base = dict(rand_units(rng, syms, emax=3))
+    frac = rng.random() < 0.4
+    if frac:
+        base = {s: e / 2 for s, e in base.items()}
+    other = near_miss(rng, base, kind)
+    if other is None:
+        return None
+    a, b = route(rng, base, depth), route(rng, other, depth)
+    if rng.random() < 0.5:
+        a, b = b, a
+    t = ["node", rng.choice(["add", "sub"]), [a, b]]
+    r = rng.random()
+    if r < 0.15:                        # the unit-less result is used further
+        t = ["node", "neg", [t]]
+    elif r < 0.3:
+        t = ["node", "mul", [t, ["const"]]]
+    return t, "near-mismatch:{}:{}".format(kind, "halves" if frac else "integers")
 
 
 def differently_ordered_sum(tree, defs=None):
@@ -1050,7 +1141,12 @@ def run_cases(ctx, pid, cases, ref=False, use_model=True):
         for k, f in enumerate(fs):
             f["history"] = cases[ci]
             if f.get("oracle") == "independent":
-                prefix = [st for st in cases[ci][:si] if st[0] != "eval" or session_fault(st[1])]
+                # earlier evaluations of the same history are dropped unless they send a request
+                # to the session or the history is ABOUT them (["eval", tree, {"keep": true}])
+                prefix = [st for st in cases[ci][:si] if st[0] != "eval" or session_fault(st[1])
+                          or (len(st) > 2 and st[2].get("keep"))]
+                if any(st[0] == "eval" for st in prefix):
+                    f["carries_history"] = True
                 sh = shrink_tree(q, pid, prefix, t, dh)
                 if sh:
                     # report the smallest calculated quantity that still fails, with its own
@@ -1059,6 +1155,8 @@ def run_cases(ctx, pid, cases, ref=False, use_model=True):
                     g["history"] = prefix + [["eval", sh[0]]]
                     g["found_in"] = {"input": f["input"], "signature": f["signature"],
                                      "history": cases[ci]}
+                    if f.get("carries_history"):
+                        g["carries_history"] = True
                     f = fs[k] = g
                 if prefix:
                     f["input"] += "  with " + describe_prefix(prefix)
